@@ -130,4 +130,42 @@ theorem upperAll_iff (A : Mat) (p : ℕ → ℕ → Bool) :
   · intro h i hi d hd
     exact h i (i + d) hi (by omega) (by omega)
 
+/-! ### block offsets -/
+
+/-- offset of block `b`: `std::accumulate(sizes.begin(), sizes.begin() + b, 0)` -/
+def offset (sizes : List ℕ) (b : ℕ) : ℕ := listSum (sizes.take b)
+
+theorem listSum_eq_sum (l : List ℕ) : listSum l = l.sum := by
+  unfold listSum
+  have : ∀ (a : ℕ) (l : List ℕ), l.foldl (· + ·) a = a + l.sum := by
+    intro a l; induction l generalizing a with
+    | nil => simp
+    | cons x l ih => simp [ih, Nat.add_assoc]
+  simpa using this 0 l
+
+theorem locate_offset : ∀ (sizes : List ℕ) (b i : ℕ), b < sizes.length → i < sizes.getD b 0 →
+    locate sizes (offset sizes b + i) = (b, i) ∧ offset sizes b + i < listSum sizes := by
+  intro sizes
+  induction sizes with
+  | nil => intro b i hb; simp at hb
+  | cons s r ih =>
+    intro b i hb hi
+    cases b with
+    | zero =>
+      simp only [List.getD_cons_zero] at hi
+      simp [offset, listSum_eq_sum, locate, hi]
+      omega
+    | succ b =>
+      simp only [List.length_cons, Nat.add_lt_add_iff_right] at hb
+      simp only [List.getD_cons_succ] at hi
+      obtain ⟨h1, h2⟩ := ih b i hb hi
+      have e : offset (s :: r) (b + 1) = s + offset r b := by
+        simp [offset, listSum_eq_sum]
+      have h3 : ¬ (s + offset r b + i < s) := by omega
+      constructor
+      · rw [e]
+        simp only [locate, h3, if_false]
+        rw [show s + offset r b + i - s = offset r b + i by omega, h1]
+      · rw [e]; simp only [listSum_eq_sum, List.sum_cons] at h2 ⊢; omega
+
 end Lp.C04
